@@ -3,7 +3,7 @@
    launch failures), every jobs >= 1, both --stop-early settings, at EVERY state of the loop. *)
 From Coq Require Import List Arith Bool NArith.
 From Conductor Require Import Model.Loader Model.Planner Model.Exec Model.RunCase
-  Proofs.ExecInv Proofs.ExecTheorems Proofs.ExecMain.
+  Proofs.ExecInv Proofs.ExecTheorems Proofs.ExecMain Proofs.PlannerInv Proofs.PlannerExact Proofs.PlannerOrder Proofs.Compose.
 Import ListNotations.
 
 (* [trace s] lists the events newest first.  If operation x is started at some point of the run,
@@ -18,6 +18,44 @@ Theorem C01_op_order :
     In (EFinish d 0%N) pre /\ (exists sl', In (EStart d sl') pre) /\ (forall sl', ~ In (EStart d sl') post).
 Proof. exact main_op_order. Qed.
 Print Assumptions C01_op_order.
+
+(* Task level, end to end, for the composed model the correspondence check evaluates
+   (loader -> planner -> executor; Model/RunCase.cond_run): whenever `cond run` gets as far as
+   executing, the operation of a task is started only after the operation of EVERY direct
+   dependency that is executed in this invocation (`runs d = again || should_run d`) has finished
+   with status 0, and that dependency is not started afterwards.  No side condition on the plan,
+   the graph or the oracle: duplicate-freeness, acyclicity and well-formedness are consequences of
+   the loader having accepted the project (Proofs/Compose.v).  Together with C01_op_order this
+   covers every dependency that is linked through executed tasks; the remaining case (a path
+   through a cached experiment) is the refuted statement below. *)
+Theorem C01_direct_deps_first_end_to_end :
+  forall fuel tasks c loaded ps evs,
+  cond_run fuel tasks c = ORun loaded ps (Some evs) -> 1 <= c_jobs c ->
+  forall pre ox sl post, evs = pre ++ EStart ox sl :: post ->
+  ox < length (ops ps) /\
+  forall d, In d (td_deps (tdef_of tasks (op_task (op_at (ops ps) ox)))) ->
+            runs (sr_of tasks) (c_again c) d = true ->
+  exists od, od < length (ops ps) /\ op_task (op_at (ops ps) od) = d /\
+             In (EFinish od 0%N) pre /\ (forall sl', ~ In (EStart od sl') post).
+Proof. exact cond_run_direct_deps_first. Qed.
+Print Assumptions C01_direct_deps_first_end_to_end.
+
+(* The operation graph the planner builds has exactly the edges of the task graph between
+   lowered tasks (both directions), and all_ops is a topological order of it. *)
+Theorem C01_task_edges :
+  forall info sr again root, (forall t, NoDup (t_deps (info t))) ->
+  (forall t, NReach info sr again root t -> ~ TPath info t t) ->
+  forall fuel ps, plan_for info sr again fuel root = Some ps ->
+  (forall o, o < length (ops ps) ->
+     forall d, In d (t_deps (info (op_task (op_at (ops ps) o)))) -> runs sr again d = true ->
+     exists od, In od (op_exe_deps (op_at (ops ps) o)) /\ od < o /\ op_task (op_at (ops ps) od) = d) /\
+  (forall o od, o < length (ops ps) -> In od (op_exe_deps (op_at (ops ps) o)) ->
+     od < o /\ In (op_task (op_at (ops ps) od)) (t_deps (info (op_task (op_at (ops ps) o))))).
+Proof.
+  intros info sr again root Hd Ha fuel ps H.
+  destruct (plan_edges info sr again root Hd Ha fuel ps H) as (A & B & _). auto.
+Qed.
+Print Assumptions C01_task_edges.
 
 (* The literal statement -- "every task it transitively depends on that is executed in this
    invocation" -- is FALSE of the faithful composed model when the only dependency path runs
@@ -56,3 +94,8 @@ Proof.
   intros [H|[]]. discriminate.
 Qed.
 Print Assumptions C01_full_refuted.
+
+(* non-vacuity of the end-to-end theorem: the F1 project itself is accepted, planned and executed *)
+Example C01_end_to_end_nonvacuous :
+  exists loaded ps evs, cond_run 100 f1_tasks f1_cfg = ORun loaded ps (Some evs) /\ 1 <= c_jobs f1_cfg /\ length evs = 11.
+Proof. vm_compute. do 3 eexists. split; [reflexivity|]. split; [repeat constructor | reflexivity]. Qed.
